@@ -17,6 +17,7 @@ from vv.ref import timeline as ref
 
 ID = 'C19'
 CASES = {'quick': 1000, 'thorough': 60000}
+FUZZ_RUNS = 40000        # thorough tier: atheris workers, -runs per worker
 RULE = ('Hypothesis draws 1..8 events on a 0.5 grid (duplicate times split '
         'into several events with disjoint variables, several events between '
         'two ticks), a listing permutation, a timeline timestep in '
